@@ -60,6 +60,9 @@ var verifRoot = func() string {
 }()
 
 func Main(args []string) int {
+	if rc, ok := c17Main(args); ok { // C17 (replica agreement) has its own master: c17_main.go
+		return rc
+	}
 	switch args[0] {
 	case "worker":
 		return workerMain(args[1:])
